@@ -216,6 +216,20 @@ def iterFrom (r : Rope) : Nat → Nat → Outcome (List UInt8)
 
 def iter (r : Rope) : Outcome (List UInt8) := iterFrom r r.len 0
 
+/-- The content of a rope as a flat byte string — the reference semantics ("what binary is
+    this?"), without any machine arithmetic. All observable behaviour of the builtins is stated
+    in terms of it; `toVec r = ok r.bytes` on well-formed ropes (`Lemmas/Bytes`). -/
+def bytes : Rope → List UInt8
+  | owned bs => bs
+  | zeroed n => List.replicate n 0
+  | slice p off l => (p.bytes.drop off).take l
+  | concat l r _ => l.bytes ++ r.bytes
+  | tiled u c => tile u.bytes c
+
+/-- Reference search on a flat byte string: index of the first `b` at or after `off`. -/
+def findFrom (v : List UInt8) (b : UInt8) (off : Nat) : Option Nat :=
+  if off ≥ v.length then none else (firstIdx b (v.drop off)).map (· + off)
+
 /-- The representation invariant of ropes built by the smart constructors: lengths are cached
     correctly, windows are inside their parents, nothing exceeds `usize`. -/
 def WF : Rope → Prop
